@@ -281,7 +281,7 @@ def oracle(ctx, intensive: bool = False, hints: List[Dict[str, Any]] = ()) -> C.
     n = ctx.scale(150, 1800) * (4 if intensive else 1)
     kinds = ["indep", "weak", "strong", "delayed", "mixed", "identical"]
     for i in range(n):
-        if ctx.time_left() < (120 if ctx.thorough else 25) or len(P.violations) >= S.MAX_VIOL:
+        if ctx.time_left() < (600 if ctx.thorough else 25) or len(P.violations) >= S.MAX_VIOL:
             P.notes.append("time budget reached" if len(P.violations) < S.MAX_VIOL else "violation cap reached")
             break
         fs = float(rng.choice([1.0, 2.0, 1000.0, float(rng.uniform(0.1, 1e4))]))
